@@ -155,7 +155,7 @@ func (c *Cluster) WriteBurst(node, nw int, park bool) []*WriteRec {
 		k.Step()
 	}
 	if park {
-		UninstallHooks()
+		k.RemoveHooks()
 		k.ReleaseAllParks()
 	}
 	k.Wait()
